@@ -29,7 +29,11 @@ SESSIONS = {
     'all+ap': (ALL_FAMILIES, True),
     'v4only': ('ipv4 unicast', False),  # ipv6 routes are not of a negotiated family: filtered
     'v4v6+ap': ('ipv4 unicast ipv6 unicast', True),
+    # sessions WITHOUT ipv4 unicast (an IPv6-only / MP-only peer): the IPv4 fields of an UPDATE must stay empty
+    'v6only': ('ipv6 unicast', False),
+    'mponly': ('ipv6 unicast ipv4 mpls-vpn', False),
 }
+FILL_SESSIONS = ['v4v6', 'all', 'all+ap', 'v4only', 'v4v6+ap']
 NH4 = '1.2.3.4'
 GENERIC_CODE = 0x99
 
@@ -699,6 +703,40 @@ def gen_fill(rng, M, key):
     return {'sess': key, 'M': M, 'attr': attr, 'ann': ann, 'wd': wd, 'kind': 'fill:' + shape}
 
 
+def gen_nonnegotiated(rng):
+    """Routes of a family the session did NOT negotiate, in every run: every session x every family it lacks x
+    {announce, withdraw, both} x {alone, next to routes of a negotiated family} ("carry nothing else": the RIB filters
+    on the configured families only, messages() is the one guard on the negotiated ones)."""
+    cases = []
+    every = ALL_FAMILIES.split()
+    every = [' '.join(every[i : i + 2]) for i in range(0, len(every), 2)]
+    for key, (famtxt, ap) in SESSIONS.items():
+        have = famtxt.split()
+        have = [' '.join(have[i : i + 2]) for i in range(0, len(have), 2)]
+        for fam in every:
+            if fam in have:
+                continue
+            for action in ('ann', 'wd', 'both'):
+                for company in (False, True):
+                    px = Prefixes()
+                    nh = '2001:db8::1' if fam.startswith('ipv6') else NH4
+                    rs = [route(px, fam, rng.randint(2, 17), rng, nh=nh) for _ in range(rng.randint(1, 3))]
+                    rs2 = [route(px, fam, rng.randint(2, 17), rng, nh=nh) for _ in range(rng.randint(1, 3))]
+                    ann = rs if action in ('ann', 'both') else []
+                    wd = rs2 if action in ('wd', 'both') else []
+                    if company:
+                        own = have[rng.randrange(len(have))]
+                        onh = '2001:db8::1' if own.startswith('ipv6') else NH4
+                        (ann if rng.random() < 0.6 else wd).append(route(px, own, rng.randint(2, 17), rng, nh=onh))
+                        if rng.random() < 0.5:
+                            wd.append(route(px, own, rng.randint(2, 17), rng, nh=onh))
+                    ann, wd = [d for d in ann if d], [d for d in wd if d]
+                    rng.shuffle(ann)
+                    cases.append({'sess': key, 'M': 4096, 'attr': ['glen', rng.choice([-1, 10])], 'ann': ann, 'wd': wd,
+                                  'kind': f'non-negotiated:{action}:{"with" if company else "alone"}'})
+    return cases
+
+
 def gen_mixes(rng):
     """Every family/action mix, in every run: each non-empty subset of {IPv4 announce, IPv4 withdraw, MP announce,
     MP withdraw} x {small, large route counts} x MP variants (1-2 families, 1-2 next hops; unicast-only and
@@ -876,8 +914,9 @@ def check(tier, seed):
                 cases.append({k: c[k] for k in ('sess', 'M', 'attr', 'ann', 'wd', 'kind')})
         except Exception:
             pass
-    keys = list(SESSIONS)
+    keys = list(FILL_SESSIONS)
     rooms = list(range(0, 65))
+    cases += gen_nonnegotiated(rng)
     cases += gen_mixes(rng)
     if not quick:
         for _ in range(6):
@@ -937,7 +976,7 @@ def check(tier, seed):
     run.coverage.update({
         'evaluations': len(cases),
         'distinct_nontrivial': len(nontrivial),
-        'rule': 'D12 witnesses + replays; every family/action mix (15 non-empty subsets of {IPv4 announce, IPv4 withdraw, MP announce, '
+        'rule': 'D12 witnesses + replays; routes of a family the session did not negotiate (7 sessions, two of them without ipv4 unicast, x every family each lacks x announce/withdraw/both x alone/with negotiated routes) in every run; every family/action mix (15 non-empty subsets of {IPv4 announce, IPv4 withdraw, MP announce, '
                 'MP withdraw} x small/large x 3 MP variants) in every run; boundary collections (1-4 NLRIs sized around what a room of 0..64 bytes admits, per path: '
                 'IPv4 announce/withdraw, MP_REACH, MP_UNREACH, both, mixed with IPv4; 5 sessions incl. ADD-PATH; both maxima); '
                 'fill collections (enough routes for 1-3 messages, attributes 0..300 bytes or room 65..400, several next hops, '
